@@ -90,7 +90,14 @@ class HTMLTokenizer(object):
             c = self.stream.char()
 
         # Convert the set of characters consumed to an int.
-        charAsInt = int("".join(charStack), radix)
+        # More than 8 significant digits is beyond U+10FFFF in either radix;
+        # arbitrarily long digit strings must not reach int(), which raises
+        # ValueError past CPython's integer string conversion limit.
+        digitString = "".join(charStack).lstrip("0")
+        if len(digitString) > 8:
+            charAsInt = 0x110000
+        else:
+            charAsInt = int(digitString or "0", radix)
 
         # Certain characters get replaced with others
         if charAsInt in replacementCharacters:
